@@ -28,7 +28,7 @@ theorem inv_init (dss : List Features) (reg : List Cls) : Inv (World.init dss re
     simp only [World.init]
     by_cases h : d < dss.length
     · simp [h]
-    · simp [h, List.getElem?_eq_none (Nat.le_of_not_lt h)]
+    · simp [h]
   bound_lt := by intro d k h; simp [World.init] at h
   obj_lt := by intro k o h; simp [World.init] at h
   obj_ds := by intro k o h; simp [World.init] at h
@@ -166,6 +166,12 @@ theorem inv_run (det : Detector) (ops : List Op) : ∀ (w : World), Inv w → In
   induction ops with
   | nil => intro w hw; exact hw
   | cons op ops ih => intro w hw; exact ih _ (inv_step det w hw op)
+
+theorem run_append (det : Detector) (ops₁ ops₂ : List Op) : ∀ (w : World),
+    run det w (ops₁ ++ ops₂) = run det (run det w ops₁) ops₂ := by
+  induction ops₁ with
+  | nil => intro w; rfl
+  | cons op ops ih => intro w; simp only [List.cons_append, run]; exact ih _
 
 /-- one step never detaches or replaces a bound convention -/
 theorem step_keeps_bound (det : Detector) (w : World) (op : Op) (d k : Nat)
